@@ -84,8 +84,8 @@ def world():
     w.unpassed = ARG_VALUE_UNPASSED
     w.ov_others = [complex, int, str, FakeBool, float]        # non-tower override targets, by ==
     w.item_others = [b'the vacancy', 1, 2.5, None, ('a',)]     # non-str collection items, by ==
-    w.rests = [{}, {bool: FakeBool}, {1: int}, {int: []}, {str: int, bytes: str}]   # FrozenDict minus float/complex keys, by ==
-    w.dicts = [{}, {int: str}, {float: complex}]
+    w.rests = [{}, {bool: FakeBool}, {1: int}, {int: []}, {str: int, bytes: str}, {'a': int, 'b.c': str}]   # FrozenDict minus float/complex keys, by ==
+    w.dicts = [{}, {int: str}, {float: complex}, {'a': 1}]
     w.objs = [object(), 2.5, float('nan'), b'bytes', (i for i in ()), len, Ellipsis]
     FD = FrozenDict
     u = int(ARG_VALUE_UNPASSED)
@@ -105,7 +105,7 @@ def world():
         FD({}), FD({bool: FakeBool}), FD({float: Pep484TowerFloat}), FD({float: complex}), FD({complex: int}),
         FD({float: None}), FD({1: int}), FD({True: int}), FD({int: []}), FD({complex: Pep484TowerComplex, bool: FakeBool}),
         FD({float: Pep484TowerFloat, complex: Pep484TowerComplex}), FD({str: int, bytes: str}), FD({float: 0, str: int, bytes: str}),
-        {}, {int: str}, {float: complex},
+        {}, {int: str}, {float: complex}, FD({'a': int, 'b.c': str}), {'a': 1},
         # anything else
         *w.objs,
     ]
@@ -196,9 +196,9 @@ def encode(x):
             h = True
         except TypeError:
             h = False
-        return ['fd', ov(float), ov(complex), _index_eq(w.rests, rest), h]
+        return ['fd', ov(float), ov(complex), _index_eq(w.rests, rest), h, all(isinstance(k, str) and _ident(k) for k in x)]
     if isinstance(x, dict):
-        return ['d', _index_eq(w.dicts, x)]
+        return ['d', _index_eq(w.dicts, x), all(isinstance(k, str) and _ident(k) for k in x)]
     for i, y in enumerate(w.objs):
         if y is x:
             return ['o', i]
